@@ -18,6 +18,7 @@ CONSTANTS
   Weak_BackwardsUnbound = FALSE
   Weak_ReplacementHashUnchecked = FALSE
   Weak_PromotedWitnessStays = TRUE
+  Weak_PartialTraceOnBenignError = FALSE
 INIT Init
 NEXT Next
 INVARIANTS TrustRootOnly StoreSound WitnessConfirmed IndependentWitness NoConfirmationFromSilence AttackReported AttackStoresNothing StoreMonotone
